@@ -64,7 +64,8 @@ def part1(M):
 
 
 PROOFS = ["right", "wrong-code", "arbitrary", "short", "front-truncated", "empty", "absent"]
-M6S = ["honest", "absent", "arbitrary", "truncated", "wrong-key-label", "wrong-nonce", "inner"]
+M6S = ["honest", "absent", "arbitrary", "truncated", "wrong-key-label", "wrong-nonce", "inner", "fields-outside-envelope"]
+OUTSIDE = ["signature", "identifier", "public-key", "all"]
 INNER_ID = ["own", "absent"]
 INNER_PK = ["own", "other-key", "absent"]
 INNER_SIG = ["valid", "over-other-id", "by-other-key", "over-other-session", "controller-label", "arbitrary", "absent"]
@@ -158,6 +159,12 @@ def part2(M):
             m6 = seal(honest_items, key=be.hkdf(K, b"Pair-Setup-Controller-Sign-Salt", b"Pair-Setup-Controller-Sign-Info"))
         elif msel == "wrong-nonce":
             m6 = seal(honest_items, label=b"PS-Msg05")
+        elif msel == "fields-outside-envelope":
+            # required fields ride in the clear next to the encrypted data instead of inside it
+            osel = ex.choice("outside", OUTSIDE)
+            moved = {"signature": [T_SIG], "identifier": [T_ID], "public-key": [T_PUBKEY], "all": [T_ID, T_PUBKEY, T_SIG]}[osel]
+            m6 = seal([it for it in honest_items if it[0] not in moved])
+            outer_extra = [it for it in honest_items if it[0] in moved]
         else:
             isel, ksel, ssel = ex.choice("inner_id", INNER_ID), ex.choice("inner_pk", INNER_PK), ex.choice("inner_sig", INNER_SIG)
             pk = own_pk if ksel == "own" else hap.LT_PUB["B"] if ksel == "other-key" else None
@@ -182,8 +189,12 @@ def part2(M):
             authentic = isel == "own" and pk is not None and ssel == "valid"
             presented = (own_id, pkv)
         fields = [(T_STATE, b"\x06")] + ([(T_ENC, m6)] if m6 is not None else [])
+        if msel == "fields-outside-envelope":
+            fields += outer_extra
+        # BLE hands the whole decoded reply to the state machine, IP/CoAP apply the 'expected' filter
+        transport = ex.choice("transport", ["filtered", "unfiltered"])
         try:
-            send(M, be, gen, fields, expected)
+            send(M, be, gen, fields, expected if transport == "filtered" else None)
             ex.require(False, "M6 ends the exchange")
             return ex.observe("no-stop")
         except StopIteration as s:
